@@ -29,6 +29,7 @@ pub struct FnSpec {
     pub may_panic: BTreeSet<usize>,
     pub letsplit: Vec<String>,
     pub refop: Vec<String>,
+    pub chainbind: Vec<(String, bool, String)>, // (method#k, mut, name)
     pub props: Vec<String>,
     pub no_canary: BTreeSet<String>,
     pub argtype: BTreeMap<String, String>,
@@ -346,6 +347,13 @@ pub fn parse(text: &str) -> Result<Unit, String> {
                     "may-panic" => { for k in a.split_whitespace() { f.may_panic.insert(k.parse().map_err(|_| format!("line {ln}: @may-panic K"))?); } }
                     "letsplit" => f.letsplit.extend(a.split_whitespace().map(String::from)),
                     "refop" => f.refop.extend(a.split_whitespace().map(String::from)),
+                    "chainbind" => {
+                        // @chainbind METHOD[#k] [mut] NAME
+                        let w: Vec<&str> = a.split_whitespace().collect();
+                        let (m, is_mut, name) = match w.as_slice() { [m, "mut", n] => (*m, true, *n), [m, n] => (*m, false, *n), _ => return Err(format!("line {ln}: @chainbind METHOD[#k] [mut] NAME")) };
+                        let m = if m.contains('#') { m.to_string() } else { format!("{}#1", m) };
+                        f.chainbind.push((m, is_mut, name.to_string()));
+                    }
                     "no-canary" => f.no_canary.extend(a.split_whitespace().map(String::from)),
                     _ => return Err(format!("line {ln}: unknown directive @{sub}")),
                 }
